@@ -4,6 +4,7 @@ Helper class for generating the HTTP request call for an endpoint method.
 
 from __future__ import annotations
 
+import json
 import logging
 from typing import TYPE_CHECKING, Any
 
@@ -69,9 +70,17 @@ class EndpointRequestGenerator:
             args_list.append("json=None")
             args_list.append("data=None")
 
-        # Determine 'headers' argument
+        # Determine 'headers' argument. httpx derives the Content-Type of json=, files= and form data= bodies itself;
+        # a raw body (data=bytes_body) carries none, so the declared media type is sent explicitly
+        # (a Content-Type header parameter of the operation still wins)
+        raw_body_content_type = primary_content_type if "data=bytes_body" in args_list else None
         if has_header_params:  # This flag comes from UrlArgsGenerator
-            args_list.append("headers=headers")  # Assumes headers dict is defined
+            if raw_body_content_type:
+                args_list.append(f'headers={{"Content-Type": {json.dumps(raw_body_content_type, ensure_ascii=False)}, **headers}}')
+            else:
+                args_list.append("headers=headers")  # Assumes headers dict is defined
+        elif raw_body_content_type:
+            args_list.append(f'headers={{"Content-Type": {json.dumps(raw_body_content_type, ensure_ascii=False)}}}')
         else:
             args_list.append("headers=None")
 
